@@ -456,3 +456,8 @@ fn entry(input: proc_macro::TokenStream) -> Result<TokenStream> {
 
     Ok(ts.into_impl(ident, generics))
 }
+
+// Verification hook: with `--cfg ts_rs_verif` a test-only module kept outside this repository is
+// compiled into the crate so that the expansion pipeline can be driven in-process.
+#[cfg(ts_rs_verif)]
+include!(env!("TS_RS_VERIF_MACROS_INCLUDE"));
